@@ -1128,7 +1128,7 @@ pub fn generate(seed: u64, thorough: bool, faults: bool) -> GenOut {
     let fault_pct = if enabled_faults.is_empty() { 0 } else { *swarm.pick(&[15u32, 30, 50]) };
 
     // (a long session always ends with the idle-equals-fresh battery, which needs plain names and no disk)
-    let key_flavour = if swarm.chance(1, 3) && !heavy { 1 } else { 0 };
+    let key_flavour = if swarm.chance(1, 3) && !heavy { if Rng::stream(seed, "per-cent-names").chance(1, 3) { 2 } else { 1 } } else { 0 };
     let disk = swarm.chance(1, 8) && !heavy;
     let big_doc_bytes = if swarm.chance(1, 25) { *swarm.pick(&[9_000usize, 70_000, 140_000]) } else { 0 };
     let version_mode = swarm.below(3); // 0: constant 1, 1: increasing, 2: increasing with restarts after close/open
